@@ -92,8 +92,9 @@ Proof. exact ex_reuse. Qed.
 
 (* ================================================================ HC, lz4mid levels (compression levels 1 and 2)
    [hstate_inv] = memory holds bytes /\ [hs_ok]: lowLimit <= dictLimit, prefixStart <= end, the index reached so far stays below
-   2^31 + LZ4_MAX_INPUT_SIZE, an anchored context has dictLimit >= 64 KB, and - unless dirty - every entry of both hash
-   tables is an index below the index reached so far; an attached dictionary context is clean and anchored.
+   2^31 + LZ4_MAX_INPUT_SIZE, an anchored context has lowLimit >= 64 KB, and - unless dirty - every entry of both hash
+   tables is an index below the index reached so far; an attached dictionary context is clean and anchored, and one at an
+   lz4mid level has the shape LZ4_loadDictHC produces ([dsearch_ok]).
    - C18_hc_mid_reuse / _step: established by LZ4_initStreamHC and preserved by EVERY modelled operation of ANY history that
      stays in the model: failed calls (dirty), LZ4_resetStreamHC(_fast), level changes within 1-2, loadDictHC, attach,
      saveDictHC (also on a stream that has not started: fix F17), destSize calls with partial consumption, one-shot
@@ -119,7 +120,7 @@ Theorem C18_hc_mid_fastReset :
   let lim := if cap <? compressBound n then LimitedOutput else NotLimited in
   let ke := k_init_internal (hs_core (hs_resetFast c level)) src in
   k_ready ke src /\ k_lowLimit ke = k_dictLimit ke /\ k_endIdx ke = k_dictLimit ke /\
-  call_post m ke src n cap lim ret consumed out hw c'.
+  call_post m ke None src n cap lim ret consumed out hw c'.
 Proof. exact hs_fastReset_sound. Qed.
 Print Assumptions C18_hc_mid_fastReset.
 
